@@ -242,7 +242,19 @@ static struct inject injects[] = {
     {"epoll_ctl", 0, 0, 0, 0},    {"epoll_create", 0, 0, 0, 0},   {"socket", 0, 0, 0, 0},
     {"bind", 0, 0, 0, 0},         {"listen", 0, 0, 0, 0},         {"read", 0, 0, 0, 0},
     {"filewrite", 0, 0, 0, 0},    {"fsync", 0, 0, 0, 0},          {"rename", 0, 0, 0, 0},
+    {"writev", 0, 0, 0, 0},
     {NULL, 0, 0, 0, 0}};
+
+static int inj_arg_fd = -1;              /* descriptor argument of the call that is asking (set by the wrappers that have one) */
+static int inj_fired_fds[8], n_inj_fired_fds; /* descriptor argument and connection in processing at the moment a fault fired */
+
+static void note_fired(void)
+{
+	if (n_inj_fired_fds + 2 <= 8) {
+		inj_fired_fds[n_inj_fired_fds++] = inj_arg_fd;
+		inj_fired_fds[n_inj_fired_fds++] = cur_read_fd;
+	}
+}
 
 static int inject_fire(const char *name)
 {
@@ -253,12 +265,16 @@ static int inject_fire(const char *name)
 				i->nth--;
 				if (i->nth == 0) {
 					i->fired++;
+					note_fired();
+					inj_arg_fd = -1;
 					return i->err;
 				}
 			}
+			inj_arg_fd = -1;
 			return 0;
 		}
 	}
+	inj_arg_fd = -1;
 	return 0;
 }
 
@@ -492,6 +508,7 @@ int __wrap_setsockopt(int fd, int level, int optname, const void *optval, sockle
 		return -1;
 	}
 	if (f->kind == K_STREAM || startup_inject) {
+		inj_arg_fd = fd;
 		int e = inject_fire("setsockopt");
 		if (e) {
 			errno = e;
@@ -514,6 +531,7 @@ static int do_fcntl(int fd, int cmd, long arg)
 	struct simfd *f = live("fcntl", fd, K_NONE);
 	if (!f) return -1;
 	if (f->kind == K_STREAM || startup_inject) {
+		inj_arg_fd = fd;
 		int e = inject_fire("fcntl");
 		if (e) {
 			errno = e;
@@ -555,6 +573,7 @@ int __wrap_getsockname(int fd, struct sockaddr *addr, socklen_t *len)
 		errno = ENOTSOCK;
 		return -1;
 	}
+	inj_arg_fd = fd;
 	int e = inject_fire("getsockname");
 	if (e) {
 		errno = e;
@@ -709,6 +728,7 @@ ssize_t __wrap_read(int fd, void *buf, size_t count)
 		return -1;
 	}
 	cur_read_fd = fd;
+	inj_arg_fd = fd;
 	int e = inject_fire("read");
 	if (e) {
 		trace_ev("[\"e\",%d,%d]", fd, e);
@@ -774,6 +794,15 @@ ssize_t __wrap_writev(int fd, const struct iovec *iov, int iovcnt)
 	size_t total = 0;
 	for (int i = 0; i < iovcnt; i++) total += iov[i].iov_len;
 	f->nwritev++;
+	inj_arg_fd = fd;
+	int ie = inject_fire("writev");      /* the n-th writev of the whole daemon fails once (whoever's it is) */
+	if (ie) {
+		if (taps_on) ds_printf(&wlog, "%s[%d,%zu,-%d]", wlog.len ? "," : "", fd, total, ie);
+		trace_ev("[\"w\",%d,%zu,-%d]", fd, total, ie);
+		if (ie == EPIPE) broken_pipe(fd);
+		errno = ie;
+		return -1;
+	}
 	if (f->werr_after == 0) {
 		if (taps_on) ds_printf(&wlog, "%s[%d,%zu,-%d]", wlog.len ? "," : "", fd, total, f->werr_errno);
 		if (f->werr_errno == EPIPE) broken_pipe(fd);
@@ -1005,6 +1034,7 @@ int __wrap_epoll_ctl(int epfd, int op, int fd, struct epoll_event *event)
 		errno = EINVAL;
 		return -1;
 	}
+	inj_arg_fd = fd;
 	int e = inject_fire("epoll_ctl");
 	if (e && op == EPOLL_CTL_ADD) {
 		errno = e;
@@ -1063,6 +1093,7 @@ int __wrap_timerfd_settime(int fd, int flags, const struct itimerspec *nv, struc
 	(void)ov;
 	struct simfd *f = live("timerfd_settime", fd, K_TIMER);
 	if (!f) return -1;
+	inj_arg_fd = fd;
 	int e = inject_fire("timerfd_settime");
 	if (e) {
 		errno = e;
@@ -1399,6 +1430,8 @@ static void put_stat(void)
 			first = 0;
 		}
 	}
+	ds_put(&out, "],\"inject_fired_fds\":[");
+	for (int i = 0; i < n_inj_fired_fds; i++) ds_printf(&out, "%s%d", i ? "," : "", inj_fired_fds[i]);
 	ds_put(&out, "],\"injects\":{");
 	first = 1;
 	for (struct inject *i = injects; i->name; i++) {
